@@ -7,6 +7,7 @@ import (
 	"crypto/rand"
 	"errors"
 	"fmt"
+	"sync"
 
 	"github.com/shogo82148/goat/enc"
 	"github.com/shogo82148/goat/jwa"
@@ -46,6 +47,8 @@ var _ enc.Algorithm = (*algorithm)(nil)
 type algorithm struct {
 	keyLen int
 
+	// mu protects mask and counter.
+	mu      sync.Mutex
 	mask    [nonceSize]byte
 	counter uint64
 }
@@ -56,11 +59,16 @@ func (alg *algorithm) GenerateCEK() ([]byte, error) {
 	if err != nil {
 		return nil, err
 	}
+	alg.mu.Lock()
 	alg.counter = 0
+	alg.mu.Unlock()
 	return cek, nil
 }
 
 func (alg *algorithm) GenerateIV() ([]byte, error) {
+	alg.mu.Lock()
+	defer alg.mu.Unlock()
+
 	c := alg.counter
 	if c == 0 {
 		_, err := rand.Read(alg.mask[:])
